@@ -97,5 +97,20 @@ Definition chk_merge : P (list Z) :=
   let m := canon64_pairs (merge_results ins) in
   ret (verdict (same_pairs m (canon64_pairs outs)) false (flatten_pairs m)).
 
+(** 1908: scoreMapToRanks (the ranking step of reciprocal-rank fusion). ascending flag, (id, score)
+    pairs, (id, rank) pairs.  Ranks are the positions 0..n-1 of a best-first ordering: a bijection
+    onto 0..n-1 in which a strictly better score always has the smaller rank (equal scores may take
+    their positions in any order, but never share one). *)
+Definition chk_ranks : P (list Z) :=
+  asc <- pbool ;; scores <- ppairs ;; ranks <- ppairs ;;
+  let n := Z.of_nat (length scores) in
+  let better (a b : Z) := if asc then F64.ltb a b else F64.gtb a b in
+  let rank_of (id : Z) := match find (fun p => fst p =? id) ranks with Some p => snd p | None => -1 end in
+  let ok :=
+      (length ranks =? length scores)%nat && nodupz (map fst ranks) && seteqz (map fst ranks) (map fst scores) &&
+      nodupz (map snd ranks) && forallb (fun p => (0 <=? snd p) && (snd p <? n)) ranks &&
+      forallb (fun a => forallb (fun b => negb (better (snd a) (snd b)) || (rank_of (fst a) <? rank_of (fst b))) scores) scores in
+  ret (verdict ok ok [n]).
+
 Definition run_P (p : P (list Z)) (s : list Z) : list Z :=
   match run_parser p s with Some v => v | None => v_parse end.
